@@ -169,3 +169,15 @@ def chain_token(chain, lz=None):
 
 def lz_token(kind, dict_size, lc=3, lp=0, pb=2, mode=2, nice=64, mf=20, depth=0):
     return "%s:%d:%d:%d:%d:%d:%d:%d:%d" % (kind, dict_size, lc, lp, pb, mode, nice, mf, depth)
+
+
+def fake_stream(records, check=1, filler=0x5A):
+    """A Stream whose Blocks are NOT decodable (filler bytes of the right total size): enough for everything that only
+    reads Stream Header / Footer and the Index (lzma_file_info_decoder, xz --list).  records = [(unpadded, uncompressed)]."""
+    sf = bytes([0, check])
+    hdr = b"\xFD7zXZ\0" + sf + struct.pack("<I", zlib.crc32(sf) & 0xFFFFFFFF)
+    body = bytes([filler]) * sum((up + 3) // 4 * 4 for up, _ in records)
+    idx = index_field(records)
+    back = struct.pack("<I", len(idx) // 4 - 1) + sf
+    ftr = struct.pack("<I", zlib.crc32(back) & 0xFFFFFFFF) + back + b"YZ"
+    return hdr + body + idx + ftr
